@@ -79,6 +79,14 @@ CHECKS = {
              'every closeness judgement is a float comparison made by the harness and handed to TLC as a scaled integer. That is why the level is "other" and not model_checking.',
         note='Trusted: TLC; numpy longdouble chord/atan2 oracle (error ~5e-8 relative at 1 micro-arcsec); position tolerances 1e-9 deg (1e-5 deg within 0.1 deg of an output pole) are harness choices. '
              'Two corners where IEEE doubles cannot reach relative 1e-6 from rounded radians are excluded by the spec predicate Resolvable and only checked for NaN/range/symmetry.'),
+    'C19': dict(
+        category='other', design='DESIGN.md section 4 C19, section 1 (no reals in TLA+)',
+        technique='TLA+ spec (FluxConv: input-kind dispatch and 2000 A guard as an exact function over kinds x element patterns, AB offsets as integers in milli-mag, 10 laws) enumerated by TLC and every case '
+                  'replayed into airtovac/vactoair/sdssflux2ab; laws over recorded call histories (inverse pair, vacuum>air, kind/unit invariance, input kept, filter_thru linear/constant/min-max/mask-independent) '
+                  'judged by TLC on harness-measured integer discrepancies with minimum instance counts',
+        text='The spec decides the discrete part exactly (answer form, which elements must be returned unchanged, array = map of scalar, which law fires, offsets in milli-mag, non-vacuity counts); '
+             'every closeness judgement (1e-6 A for the inverses, harness-chosen 1e-9 relative for filter_thru and 1e-8 mag for sdssflux2ab where the statement gives none) is a float comparison made by the harness.',
+        note='Trusted: TLC; the float classification and |x-y| measurements in c19.py. At exactly 2000 A both readings are accepted; float64 only.'),
     'C20': dict(
         category='fault_enumeration', design='DESIGN.md section 4 C20',
         technique='TLA+ state machine (EnvProtocol: save/mutate/steps-with-faults/restore) model-checked by TLC for every fault position and initial '
